@@ -29,7 +29,9 @@ def classify(res):
     return by, hits
 
 
-def run_lex(r, prop, n_quick=20, n_thorough=200, use=("lex.bisim", "lex.wfmodes", "lex.run"), family="lexgen"):
+def run_lex(r, prop, n_quick=20, n_thorough=200, use=("lex.bisim", "lex.wfmodes", "lex.run"), family="lexgen", also_if_broken=()):
+    """`also_if_broken`: oracle prefixes whose hits count as the failing input of `prop` when (and only when)
+    a validator named in `use` rejected an emitted table in the same run."""
     n = n_quick if r.tier == "quick" else n_thorough
     res = r.run_family(family, n=n, timeout=7200)
     by, hits = classify(res)
@@ -55,16 +57,31 @@ def run_lex(r, prop, n_quick=20, n_thorough=200, use=("lex.bisim", "lex.wfmodes"
                               not by["lex.run"], "%d mismatches" % len(by["lex.run"])))
         broken += by["lex.run"]
     broken += by["other"]
+    borrowed = []
+    if broken and not mine and also_if_broken:
+        # a specification's lines: its lex.bisim(ng) lines, lex.wfmodes, @let, then its runs
+        spec, cur, prev_b = [], -1, False
+        for c in res["cases"]:
+            b = c.startswith(("lex.bisim", "lex.bisimng"))
+            if b and not prev_b:
+                cur += 1
+            prev_b = b
+            spec.append(cur)
+        bad = {spec[m[0]] for m in broken if m[0] < len(spec)}
+        for p in also_if_broken:
+            borrowed += [h for h in hits.get(p, []) if spec[h[0]] in bad]
     if broken and not mine:
         first = broken[0]
         r.violation(family + "-tie", {
+            "input": ({"what": borrowed[0][3][:6000], "implementation_output": borrowed[0][2],
+                       "case_line": expand_lets(res["cases"], borrowed[0][0])[:20000]} if borrowed else None),
             "kind": "validator-rejects-emitted-table" if first[1].startswith(("lex.bisim", "lex.wf")) else "correspondence-broken",
             "first": {"case_line": expand_lets(res["cases"], first[0])[:20000], "implementation": first[2], "model": first[3]},
             "counts": {k: len(v) for k, v in by.items()},
             "note": "search: the reference lexer found no differing input among %d runs; oracle hits for other properties: %s" % (
                 len(res["cases"]), {k: len(v) for k, v in hits.items()}),
             "names": "theorems Lox.Props.%s.* rely on Lex.bisim (Lox/Lex/Bisim.lean), wfModes (Lox/Lex/Runtime.lean) and the model Lox/Lex/Model.lean" % prop,
-        }, False)
+        }, bool(borrowed))
     r.cov[family + "_counters"] = counters
     r.cov["programs"] = counters.get("accepted", 0)
     return res, hits
